@@ -40,7 +40,10 @@ function buildCase(rng, prov, decl, shape, forms, resolveType) {
     else if (f === 'viaSpread') spreadMembers.push(`${k}: ${USER[k]}`);
   }
   const other = rng.bool() ? ['inheritAttrs: false'] : [];
-  const setup = '(props: P, ctx: SetupContext<{ (e: "chg"): void }>) => () => null';
+  // sometimes the props parameter has a dynamic default: deriving props then needs the mergeDefaults helper
+  const withDefault = rng.bool(0.3);
+  if (withDefault) L.push('const DEFS = { a: "x" };');
+  const setup = `(props: P${withDefault ? ' = DEFS' : ''}, ctx: SetupContext<{ (e: "chg"): void }>) => () => null`;
   let args;
   let augmentable = true; // whether the call shape allows augmentation at all
   let fnName = '';
@@ -93,7 +96,7 @@ function buildCase(rng, prov, decl, shape, forms, resolveType) {
   return {
     src: L.join('\n') + '\n',
     spec: {
-      prov, isVueRuntime: ['vueNamed', 'vueNamedInner', 'vueAliased', 'nsMember'].includes(prov), augment, mayAugment, supplied, shape, fnName, varNamed,
+      withDefault, prov, isVueRuntime: ['vueNamed', 'vueNamedInner', 'vueAliased', 'nsMember'].includes(prov), augment, mayAugment, supplied, shape, fnName, varNamed,
       // `defineComponent(...args)` hides the argument count from the transform, but not from the runtime
       nameInjectable: resolveType && isVue && varNamed && !shape.startsWith('spread'),
       mayNameInject: resolveType && prov === 'vueAliased' && varNamed && augmentable,
@@ -174,6 +177,7 @@ export async function check(group, records) {
       const expectWith = (aug, nameInj) => {
         const e = {};
         for (const k of ['props', 'emits']) e[k] = spec.supplied[k] ? USERVAL[k] : aug && !(k === 'emits' && spec.shape === 'namedFnExpr') ? DERIVED[k] : undefined;
+        if (e.props === DERIVED.props && spec.withDefault && spec.shape !== 'namedFnExpr') e.props = { a: { type: 'String', required: true, default: 'x' } };
         e.name = spec.supplied.name ? 'UserName' : spec.fnName ? spec.fnName : nameInj ? 'Comp' : '';
         return e;
       };
